@@ -358,6 +358,86 @@ def _h3_witness():
         return None
 
 
+def gen_deaf(rng, seed, tier):
+    """A plain script without any subscriber (no listeners, no simulation statistics):
+    initialize, start, and a cleanup / re-initialise that may overlap the run."""
+    prog = program.gen_program(rng, clock=rng.choice(["float", "float", "int"]),
+                               n_events=rng.choice([2, 3, 5, 8, 12, 20]), p_cancel=0.05)
+    prog.pop("tc_listener", None)
+    case = {"program": prog, "layer": "b", "strategy": rng.choice([1, 2, 3, 3]),
+            "no_listeners": True}
+    cmds = [["initialize"], ["start"]]
+    cmds += rng.choice([[["cleanup"]], [["cleanup"]], [["sleep", 0.0005], ["cleanup"]],
+                        [["poll_stopped"], ["cleanup"]], [["poll"], ["cleanup"]],
+                        [["stop"], ["cleanup"]], [["sleep", 0.001], ["initialize"]],
+                        [["poll_stopped"], ["initialize"]], [["stop"], ["initialize"]]])
+    if rng.random() < 0.4:
+        cmds += [["settle"], rng.choice([["initialize"], ["start"], ["step"]])]
+    case["commands"] = cmds
+    kind = rng.choice(["pct", "site", "site", "S0"])
+    sc = {"kind": kind, "seed": seed, "step_cost_us": rng.choice([0, 1, 10, 100])}
+    if kind == "pct":
+        sc.update(p=rng.choice([0.05, 0.02]), d=rng.choice([1, 2, 3]))
+    elif kind == "site":
+        sc.update(q=rng.choice([0.3, 0.15]), p=rng.choice([0.0, 0.003]), d=rng.choice([1, 2, 3]))
+    if rng.random() < 0.4:
+        sc["eager"] = [rng.choice([0.5, 0.01, 0.002]), rng.choice([0, 1, 2, 4, 8, 15, 30, 60])]
+    if rng.random() < 0.2:
+        sc["opcodes"] = True
+    if kind != "S0" and rng.random() < 0.4:
+        sc["refill"] = True
+    case["sched"] = sc
+    return case
+
+
+def evaluate_deaf(case, r):
+    """Nobody listens: judged by states, run-thread liveness and handler executions."""
+    H = r.hist.H
+    if r.aborted:
+        return [("no-quiescence", "run aborted: %s after %d steps (last commands %s)"
+                 % (r.aborted, r.det.step, case["commands"][-3:]))]
+    grace_fault = (r.det.n_fault_clock_jump > 0 or bool((case.get("sched") or {}).get("oversleep"))
+                   or sum(d[2] for d in r.det.decisions if len(d) > 2 and d[2]) >= 0.9)
+    cmds = devscommon.split_history(H)
+    for c in cmds:
+        ck = r.cmd_clock.get(c["index"])
+        if c["name"] in ("initialize", "cleanup", "stop") and ck and ck[1] is not None \
+                and (_grace_expired(ck) or grace_fault):
+            r.count("unjudged:grace-expired-in-initialize-or-cleanup")
+            return []
+        if c["callback"] and c["name"] in ("initialize", "cleanup"):
+            r.count("unjudged:initialize-or-cleanup-while-STOPPING")
+            return []
+    findings = lifecycle.check_quiescent_states(H)
+    for c in cmds:
+        o = c.get("outcome")
+        if o is not None and o.startswith("exc:"):
+            findings.append(("command-raised-non-dsol-error", "command #%d %s (%s) raised %s"
+                             % (c["index"], c["name"], c.get("where", "driver"), o)))
+            break
+    for c in cmds:
+        if c["name"] != "cleanup" or c.get("outcome") != "ok" or "return_pos" not in c:
+            continue
+        nxt = next((d["invoke_pos"] for d in cmds if d["name"] == "initialize"
+                    and d["invoke_pos"] > c["return_pos"]), len(H))
+        late = [h for h in H[c["return_pos"]:nxt] if h[0] == "exe"]
+        if late:
+            findings.append(("accepted-cleanup-without-effect",
+                             "cleanup #%d returned normally but handlers kept running "
+                             "afterwards: %s" % (c["index"], [(x[1], x[2]) for x in late[:4]])))
+            break
+        for h in H[c["return_pos"]:nxt]:
+            if h[0] == "quiet" and ((h[2], h[3]) != ("NOT_INITIALIZED", "NOT_INITIALIZED")
+                                     or h[-1] != 0):
+                findings.append(("state-after-command",
+                                 "at quiescence after cleanup #%d the simulator reports (%s, %s) "
+                                 "with %d live run thread(s)" % (c["index"], h[2], h[3], h[-1])))
+                break
+        if findings:
+            break
+    return findings
+
+
 def generate(seed, tier, idx=0):
     rng = common.rng_for(seed, "case")
     if idx == n_exh(tier):
@@ -374,6 +454,8 @@ def generate(seed, tier, idx=0):
         return c
     if rng.random() < 0.35:
         return gen_sequential(rng)
+    if rng.random() < 0.06:
+        return gen_deaf(rng, seed, tier)
     return gen_overlap(rng, seed, tier)
 
 
@@ -498,6 +580,12 @@ def evaluate_overlap(case, r):
             if adm in ("STOPPING", "STARTING", "STARTED") \
                     or c["before"][0] in ("STOPPING", "STARTING", "STARTED") \
                     or (c["callback"] and c["tid"] != 0):
+                if ck and ck[1] is not None and not _grace_expired(ck) \
+                        and not (c["callback"] and c["tid"] != 0) and not grace_fault:
+                    # the run thread came to rest well within the grace period: the
+                    # command is judged like any other
+                    r.count("judged:initialize-or-cleanup-overlapping-the-run")
+                    continue
                 # the run thread is still inside a handler/listener (a stop
                 # requested from a callback burns the whole 1 s grace period
                 # of cleanup): grace expiry is by design, nothing after it is
@@ -759,7 +847,8 @@ def execute(case):
         if "enumerated" in case:
             cnt["enumerated_sequences"] = 1
     else:
-        findings = evaluate_overlap(case, r)
+        findings = evaluate_deaf(case, r) if case.get("no_listeners") \
+            else evaluate_overlap(case, r)
         cmds = devscommon.split_history(H)
         acc = [c for c in cmds if c["name"] in devscommon.START_LIKE
                and c.get("outcome") == "ok"]
